@@ -1,6 +1,7 @@
 //! Runtime-monitoring harness for axross/espada (see /verif/DESIGN.md).
 
 pub mod checks;
+pub mod child;
 pub mod conv;
 pub mod core;
 pub mod drive;
